@@ -36,9 +36,11 @@ def _run_cvc5(text, timeout_s):
 
 
 def _solve(idx):
-    hyps, goal, want_model, probes = _OBLS[idx]
+    item = _OBLS[idx]
+    hyps, goal, want_model, probes = item[:4]
+    logic = item[4] if len(item) > 4 else None
     t0 = time.time()
-    s = z3.Solver()
+    s = z3.SolverFor(logic) if logic else z3.Solver()
     s.set("timeout", int(_CFG["z3_timeout"] * 1000))
     # note: plain "random_seed" on the default solver changes its strategy (observed: unsat -> unknown);
     # the module-qualified parameter does not.
@@ -95,15 +97,37 @@ def _verdict(res):
 
 
 def discharge(items, z3_timeout=20, cvc5_timeout=20, procs=None, cvc5=True, recheck=False, seed=None, tmp=None):
-    """items: list of (hyps, goal, want_model, probes dict name->z3 term).  Returns list of result dicts."""
+    """items: list of (hyps, goal, want_model, probes[, logic]).  Returns list of result dicts.
+    Every item is solved in a forked child; a crashing solver (observed: segfault) costs that item only."""
+    import concurrent.futures as cf
     global _OBLS, _CFG
     _OBLS = items
     _CFG = dict(z3_timeout=z3_timeout, cvc5_timeout=cvc5_timeout, cvc5=cvc5, recheck=recheck, seed=seed, tmp=tmp)
     if not items:
         return []
     procs = procs or min(16, os.cpu_count() or 4, len(items))
-    if procs <= 1 or len(items) == 1:
-        return [_solve(i) for i in range(len(items))]
     ctx = multiprocessing.get_context("fork")
-    with ctx.Pool(procs) as pool:
-        return pool.map(_solve, range(len(items)), chunksize=1)
+    results = [None] * len(items)
+
+    def crash(i, why):
+        return {"idx": i, "z3": "unknown", "z3_s": 0.0, "reason": "solver process crashed: %s" % why, "backend": "z3", "verdict": "unknown"}
+
+    pending = list(range(len(items)))
+    try:
+        with cf.ProcessPoolExecutor(max_workers=max(1, procs), mp_context=ctx) as ex:
+            futs = {ex.submit(_solve, i): i for i in pending}
+            for f in cf.as_completed(futs):
+                i = futs[f]
+                try:
+                    results[i] = f.result()
+                except Exception:
+                    pass
+    except Exception:
+        pass
+    for i in [i for i in pending if results[i] is None]:
+        try:
+            with cf.ProcessPoolExecutor(max_workers=1, mp_context=ctx) as ex:
+                results[i] = ex.submit(_solve, i).result()
+        except Exception as e:
+            results[i] = crash(i, type(e).__name__)
+    return results
